@@ -286,8 +286,8 @@ fn commands(out: &mut Out, r: &mut Rng, histories: u64, len: u64) {
                     if !d.stopped() && !d.failed {
                         d.run(r.below(667 + 735 + 900), r, out);
                         pos = None;
-                        out.ev(json!({"ev":"stop"}));
                         d.tap.stop();
+                        out.ev(json!({"ev":"stop","stopped":d.stopped()}));
                     }
                 }
                 // the fast loader takes the next block of a tape that has not been started: the deck stays stopped, a later
@@ -314,8 +314,37 @@ fn commands(out: &mut Out, r: &mut Rng, histories: u64, len: u64) {
                     }
                 }
                 3..=4 => {
-                    out.ev(json!({"ev":"stop"}));
                     d.tap.stop();
+                    out.ev(json!({"ev":"stop","stopped":d.stopped()}));
+                }
+                // STOP, PLAY and STOP again shortly afterwards (inside the same pulse, the same pause, or a few pulses on)
+                8 if !d.stopped() && r.chance(1, 2) => {
+                    for k in 0..2 + r.below(3) {
+                        d.tap.stop();
+                        out.ev(json!({"ev":"stop","stopped":d.stopped()}));
+                        if d.stopped() {
+                            let before = d.tap.current_bit();
+                            let c = r.below(3000);
+                            if let Err(e) = d.tap.process_clocks(c as usize) {
+                                d.fail(out, format!("process_clocks while stopped: {e:?}"));
+                                break;
+                            }
+                            out.ev(json!({"ev":"idle","clocks":c,"changed":d.tap.current_bit() != before}));
+                        }
+                        out.ev(json!({"ev":"play","was_stopped":d.stopped()}));
+                        d.tap.play();
+                        let t = if k % 2 == 0 { r.below(600) } else { r.below(6000) };
+                        d.run(t, r, out);
+                        pos = pos.map(|p| p + t);
+                        if d.stopped() || d.failed {
+                            break;
+                        }
+                    }
+                    if d.stopped() && !d.failed {
+                        started = false;
+                        consumed = 0;
+                        pos = Some(0);
+                    }
                 }
                 5 => {
                     if r.chance(1, 2) {
